@@ -11,7 +11,7 @@ EXTRA_IMPORTS = re_.RETRY_IMPORTS
 RULE = ('per-attempt outcomes {response ok, response with error (listed / unlisted code), transport exception (listed / subclass / '
         'unlisted), undecodable body, invalid response, identity mismatch, KeyboardInterrupt, asyncio.CancelledError} in every sequence '
         'of length attempts+1 for strategies of 0..2 (quick) / 0..3 (thorough) attempts (plus no strategy), x 0..3 tracers (every second one a falsy object; handed over as a list, a tuple, a generator or an iterator) x single / '
-        'batch / notification x caller-supplied vs default trace context x sync / async; a quarter of the cases on a client that has already served a retried request. distinct = distinct full case; non-trivial = '
+        'batch / notification x caller-supplied vs default trace context x sync / async; a third of the cases from inside an `except` block of the caller; a quarter of the cases on a client that has already served a retried request. distinct = distinct full case; non-trivial = '
         'at least one tracer event')
 EXHAUSTIVE = {'quick': False, 'thorough': False}
 TRUSTED_BASE = ['unittest.mock patching of the sleeps; instrumented Tracer subclasses recording (event, tracer index, context identity, payload)']
@@ -46,6 +46,8 @@ def generate(seed, tier):
     for i, c in enumerate(cases):
         if i % 4 == 0:
             c['warm'] = True       # the same client, strategy and tracer objects have already served a request
+        if i % 3 == 1:
+            c['in_except'] = True  # the request is made from inside an `except` block of the caller
     return cases
 
 
